@@ -84,11 +84,11 @@ pub proof fn lemma_step_add(f: PatchedFile, h: int, k: int, gs: int, fa: int, dq
         kind(hunk_lines(f, h)[k]) == Kind::Add,
         inv_group(f, h, k, gs, fa, dq, prev),
         inv_entries(f, h, k, gs, fa, false, out, o, carve),
-        dq.len() > 0 ==> dq1.len() == dq.len() - 1 && forall|j: int| 0 <= j < dq1.len() ==> dq1[j] == dq[j + 1],
+        dq.len() > 0 ==> dq1.len() == dq.len() - 1 && forall|j: int| 0 <= j < dq1.len() ==> dq1[j] == dq[j + 1], // [Db.step.add.front_of_queue_consumed]
         dq.len() == 0 ==> dq1.len() == 0,
-        hunk_lines(f, h)[k].target_line_no == Some(e.line),
-        e.ranges is Some <==> dq.len() > 0,
-        lc_wf(e),
+        hunk_lines(f, h)[k].target_line_no == Some(e.line), // [Db.step.add.entry_has_target_line_no]
+        e.ranges is Some <==> dq.len() > 0, // [Db.step.add.ranges_iff_paired]
+        lc_wf(e), // [Db.step.add.ranges_wf]
         *p1 == hunk_lines(f, h)[k],
     ensures
         inv_group(f, h, k + 1, gs, fa, dq1, Some(p1)),
@@ -100,6 +100,7 @@ pub proof fn lemma_step_add(f: PatchedFile, h: int, k: int, gs: int, fa: int, dq
     let o1 = o.push(x);
     let out1 = out.push(e);
     assert(hunk_wf(hk));
+    assert(line_wf(hk, k));
     assert(ct(hk, k + 1) == ct(hk, k) + 1);
     assert(e.line as int == ct(hk, k));
     assert(inv_group(f, h, k + 1, gs, fa, dq1, Some(p1))) by {
@@ -163,6 +164,7 @@ pub proof fn lemma_step_rem(f: PatchedFile, h: int, k: int, gs: int, fa: int, dq
     let ls = hunk_lines(f, h);
     let hk = f.spec_hunks()[h];
     assert(hunk_wf(hk));
+    assert(line_wf(hk, k));
     reveal(inv_group);
     reveal(inv_entries);
     if k > 0 { assert(kind(ls[k - 1]) != Kind::Add); }
@@ -195,8 +197,9 @@ pub proof fn lemma_step_fold(f: PatchedFile, h: int, k: int, gs: int, fa: int, d
         k < hunk_lines(f, h).len() ==> kind(hunk_lines(f, h)[k]) == Kind::Ctx,
         inv_group(f, h, k, gs, fa, dq, prev),
         inv_entries(f, h, k, gs, fa, false, out, o, carve),
-        fold_pushes(dq, prev) ==> out1 == out.push(deletion_entry(*dq[0])),
-        !fold_pushes(dq, prev) ==> out1 == out,
+        fold_pushes(dq, prev) ==> out1 == out.push(deletion_entry(*dq[0])), // [Db.step.fold.one_entry_for_pure_deletion]
+        !fold_pushes(dq, prev) ==> out1 == out, // [Db.step.fold.no_entry_otherwise]
+        carve ==> kf1_carve_out(f),
     ensures
         inv_entries(f, h, k, k, k, true, out1, fold_origin(o, h, k, gs, dq, prev), carve),
 {
@@ -207,7 +210,6 @@ pub proof fn lemma_step_fold(f: PatchedFile, h: int, k: int, gs: int, fa: int, d
     reveal(inv_entries);
     let o1 = fold_origin(o, h, k, gs, dq, prev);
     if k > 0 && kind(ls[k - 1]) == Kind::Rem {
-        if k - 1 > 0 { assert(kind(ls[k - 2]) != Kind::Add || true); }
         assert(fa == k);
         assert(dq.len() == k - gs);
         assert(*dq[0] == ls[gs]);
@@ -218,6 +220,7 @@ pub proof fn lemma_step_fold(f: PatchedFile, h: int, k: int, gs: int, fa: int, d
         lemma_has_entry_push(o, x);
         assert(pure_del_run(ls, gs, k));
         assert(kind(ls[gs]) == Kind::Rem);
+        assert(line_wf(hk, gs));
         assert(e.line as int == cs(hk, gs));
         assert(entry_ok(f, e, x));
         assert forall|i: int| 0 <= i < out1.len() implies entry_ok(f, #[trigger] out1[i], o1[i]) by {
@@ -278,7 +281,7 @@ pub proof fn lemma_closed_to_inner(f: PatchedFile, h: int, k: int, out: Seq<Line
         0 <= k < hunk_lines(f, h).len(),
         kind(hunk_lines(f, h)[k]) == Kind::Ctx,
         inv_entries(f, h, k, k, k, true, out, o, carve),
-        dq.len() == 0,
+        dq.len() == 0, // [Db.step.fold.queue_cleared]
         *p1 == hunk_lines(f, h)[k],
     ensures
         inv_group(f, h, k + 1, k + 1, k + 1, dq, Some(p1)),
@@ -306,6 +309,7 @@ pub proof fn lemma_closed_to_outer(f: PatchedFile, h: int, out: Seq<LineChange>,
         && kind(#[trigger] hunk_lines(f, h2)[k2]) == Kind::Add implies has_entry(o, h2, k2) by {}
     assert forall|h2: int, ks: int, e: int| 0 <= h2 < h + 1 && #[trigger] pure_del_run(hunk_lines(f, h2), ks, e) implies has_entry(o, h2, ks) by {}
     if carve && h + 1 < f.spec_hunks().len() {
+        assert(hunk_gap(f, h));
         assert(tgt_first(f.spec_hunks()[h + 1]) > ct(f.spec_hunks()[h], n));
     }
 }
